@@ -675,16 +675,16 @@ func TestC31(t *testing.T) {
 	}
 	var jobs []job
 	rng := r.Rand("histories")
-	nCons := r.N(150, 1500)
+	nCons := r.N(100, 1500)
 	for i := 0; i < nCons; i++ {
 		jobs = append(jobs, job{c: genC31(rng, r.N(20, 30), false)})
 	}
-	nGap := r.N(250, 3000)
+	nGap := r.N(200, 3000)
 	for i := 0; i < nGap; i++ {
 		jobs = append(jobs, job{c: genC31(rng, r.N(20, 30), true)})
 	}
 	crng := r.Rand("crash-histories")
-	nCrash := r.N(8, 60)
+	nCrash := r.N(6, 60)
 	for i := 0; i < nCrash; i++ {
 		c := genC31(crng, 15, i%2 == 1)
 		// the child ignores reopen ops; mark the case as crash-style for the replay
@@ -726,5 +726,5 @@ func TestC31(t *testing.T) {
 	r.Count("txs_served_and_matched", st.servedTxs)
 	r.Count("absent_answers_confirmed", st.absentAnswers)
 	r.Count("evictions_expected", st.evictionsObserved)
-	r.Finish(r.N(150, 1500))
+	r.Finish(r.N(120, 1500))
 }
